@@ -77,7 +77,7 @@ def big_structure(draw):
     return {"A": {"U": U, "p": p, "P": P, "w": w, "num": "fracint" if intpoints else "frac"},
             "B": {"U": V, "p": q, "P": Q, "w": None, "num": "frac"},
             "op": draw(st.sampled_from(OPS)), "t": draw(st.sampled_from([F(1, 3), F(2, 5), F(1, 2)])),
-            "profile": "big"}
+            "profile": "big", "order": draw(st.sampled_from(lib.SEQ_ORDERS))}
 
 
 @st.composite
@@ -104,7 +104,7 @@ def small_structure(draw):
     return {"A": {"U": U, "p": p, "P": P, "w": w, "num": "frac"},
             "B": {"U": V, "p": q, "P": Q, "w": None, "num": "frac"},
             "op": draw(st.sampled_from(OPS)), "t": draw(st.sampled_from([F(1, 3), F(2, 5), F(1, 2)])),
-            "profile": "small", "float_first": draw(st.booleans())}
+            "profile": "small", "float_first": draw(st.booleans()), "order": draw(st.sampled_from(lib.SEQ_ORDERS))}
 
 
 # ----------------------------------------------------------------- operation runner
@@ -212,15 +212,19 @@ def run_op(case, num):
             hi = a.U[i + a.p + 1]
             prev = lo + (hi - lo) * t
             nodes.append(prev)
-        if t != F(1, 2):  # t == 1/2: square system (interpolation); otherwise one extra node (least squares)
-            nodes.append(prev + (a.U[-1] - prev) / 2)
-        ln = [K(z) for z in nodes]
-        data = [A(u) for u in ln]
-        T = lib.Curve([K(u) for u in case["A"]["U"]])
-        if case["A"]["w"] is not None:
-            T.weights = [lib.conv_val(x, num) for x in case["A"]["w"]]
-        T.fit_points(data, ln)
-        return [("state", lib.state_of(T))], [T.ctrlpoints]
+        # both the square system (interpolation) and one extra node (least squares); (node, point) pairs in any order
+        items, raws = [], []
+        for extra in (False, True):
+            zs = nodes + ([prev + (a.U[-1] - prev) / 2] if extra else [])
+            ln = lib.reorder([K(z) for z in zs], case.get("order", "given"))
+            data = [A(u) for u in ln]
+            T = lib.Curve([K(u) for u in case["A"]["U"]])
+            if case["A"]["w"] is not None:
+                T.weights = [lib.conv_val(x, num) for x in case["A"]["w"]]
+            T.fit_points(data, ln)
+            items.append(("state", lib.state_of(T)))
+            raws.append(T.ctrlpoints)
+        return items, raws
     if op == "integrate":
         from compmec.nurbs.calculus import Integrate
         if a.w is not None or not a.scalar:
@@ -252,7 +256,7 @@ def expected(case, num="frac"):
                     flat.append(oracle.basis_row(a.U, a.p, j, u, a.w)[i])
         return [("value", tuple(flat))]
     if op in ("insert", "elevate", "remove", "reduce", "join", "fit_curve", "fit_points"):
-        out = [("same", a)]
+        out = [("same", a)] * (2 if op == "fit_points" else 1)
         if op == "fit_curve":
             out.append(("value", (F(0),)))
         return out
